@@ -1,5 +1,7 @@
 import NavisModel.Proofs.CodecLemmas
 import NavisModel.Gen.IoConsts
+import NavisModel.Proofs.IoMetaLemmas
+import NavisModel.Gen.IoReaders
 /-!
 # C14 — precomputed, NRRD, JSON, HDF5 and mesh files decode to what was written
 
@@ -260,6 +262,280 @@ recognised as `h5py.Group`. -/
 theorem gen_h5_facts :
     IoConsts.h5ListForwards = ["raw", "serialized"] ∧ IoConsts.h5AnnotationGroupClass = "h5py.Group" := by
   refine ⟨by decide, by decide⟩
+
+
+/-! ## Second pass: every reader class, file selection, `info` file, NRRD header, attribute columns, JSON keys -/
+
+section Ext
+open Navis.IoMeta Navis.IoBatch Navis.Gen
+
+/-! ### the policy model applies to every reader class of `navis/io` -/
+
+/-- **Every class deriving from `BaseReader`** (precomputed, NRRD, mesh, TIFF, SWC, NML/NMX – regenerated from
+`navis/io/*.py` on every run): its effective `format_output` (own or inherited) drops `None`, its effective
+`read_buffer` / `read_dataframe` is wrapped by `@handle_errors`, and neither it nor an ancestor replaces a batch
+loop, the dispatchers or `parse_filename` (only `is_valid_file` may be overridden). So `policy_isolation`,
+`policy_raise`, `containers_agree` speak about each of them, and C07's `matchFmt` model of `parse_filename` is the
+code every reader runs. A new reader class, a new override or a dropped decorator changes the table. -/
+theorem every_reader_class_follows_policy :
+    IoReaders.baseEntryPointsDecorated = true ∧
+    ∀ c ∈ IoReaders.readerClasses,
+      policyApplies IoReaders.readerClasses IoConsts.baseFormatOutputFilters IoReaders.baseEntryPointsDecorated c = true := by
+  refine ⟨by decide, ?_⟩
+  decide
+
+/-- The classes this property is about are in the table (the table is not vacuous). -/
+theorem c14_readers_in_table :
+    ∀ n ∈ ["PrecomputedSkeletonReader", "PrecomputedMeshReader", "NrrdReader", "MeshReader"],
+      (findClass IoReaders.readerClasses n).isSome = true := by
+  decide
+
+/-! ### which files a batch read looks at, and in which order -/
+
+/-- **Deterministic order.** Whatever the `limit`, a folder / zip / tar read looks at a *sub-list* of the container's
+listing: files are never reordered or duplicated, so the result order is the listing order (and, by
+`containers_agree`, independent of `parallel`). -/
+theorem selection_keeps_listing_order (hidden valid : String → Bool) (limit : Limit) (listing : List String) :
+    (selectDirAW valid limit listing).Sublist listing ∧
+    (selectZipAW hidden valid limit listing).Sublist listing ∧
+    (selectTarAW hidden valid limit listing).Sublist listing := by
+  have hs := scanAW_sublist hidden valid (intOf limit) 0 listing
+  refine ⟨?_, ?_, ?_⟩
+  · cases limit <;> simp only [selectDirAW]
+    · exact List.filter_sublist
+    · exact (List.take_sublist _ _).trans List.filter_sublist
+    · exact ((List.drop_sublist _ _).trans (List.take_sublist _ _)).trans List.filter_sublist
+    · exact List.nil_sublist _
+    · exact List.filter_sublist.trans List.filter_sublist
+  · cases limit <;> simp only [selectZipAW]
+    · exact hs
+    · exact hs
+    · exact ((List.drop_sublist _ _).trans (List.take_sublist _ _)).trans hs
+    · exact List.nil_sublist _
+    · exact List.filter_sublist.trans hs
+  · cases limit <;> simp only [selectTarAW]
+    · exact hs
+    · exact hs
+    · exact ((List.drop_sublist _ _).trans (List.take_sublist _ _)).trans hs
+    · exact List.filter_sublist.trans hs
+    · exact List.filter_sublist.trans hs
+
+/-- Only valid files are looked at (no `info`, manifest, hidden or foreign file is ever parsed). -/
+theorem selection_only_valid (hidden valid : String → Bool) (limit : Limit) (listing : List String) (f : String) :
+    (f ∈ selectDirAW valid limit listing → valid f = true) ∧
+    (f ∈ selectZipAW hidden valid limit listing → valid f = true ∧ hidden f = false) ∧
+    (f ∈ selectTarAW hidden valid limit listing → valid f = true ∧ hidden f = false) := by
+  have hscan : ∀ g, g ∈ scanAW hidden valid (intOf limit) 0 listing → valid g = true ∧ hidden g = false :=
+    fun g hg => mem_scanAW_valid hidden valid _ 0 listing g hg
+  refine ⟨?_, ?_, ?_⟩
+  · intro hf
+    cases limit <;> simp only [selectDirAW] at hf
+    · exact (List.mem_filter.1 hf).2
+    · exact (List.mem_filter.1 (List.mem_of_mem_take hf)).2
+    · exact (List.mem_filter.1 (List.mem_of_mem_take (List.mem_of_mem_drop hf))).2
+    · simp at hf
+    · exact (List.mem_filter.1 (List.mem_filter.1 hf).1).2
+  · intro hf
+    cases limit <;> simp only [selectZipAW] at hf
+    · exact hscan f hf
+    · exact hscan f hf
+    · exact hscan f (List.mem_of_mem_take (List.mem_of_mem_drop hf))
+    · simp at hf
+    · exact hscan f (List.mem_filter.1 hf).1
+  · intro hf
+    cases limit <;> simp only [selectTarAW] at hf
+    · exact hscan f hf
+    · exact hscan f hf
+    · exact hscan f (List.mem_of_mem_take (List.mem_of_mem_drop hf))
+    · exact hscan f (List.mem_filter.1 hf).1
+    · exact hscan f (List.mem_filter.1 hf).1
+
+/-- **One neuron per valid file.** Without `limit`, and for `slice` / substring limits, all three containers select
+exactly what the documentation promises (hidden files are never valid: for the extension filter by definition, for
+precomputed names because `._x` contains a dot); folders also for an integer limit. -/
+theorem selection_meets_spec (hidden valid : String → Bool) (limit : Limit) (listing : List String)
+    (hhid : ∀ f, hidden f = true → valid f = false) :
+    ((∀ l, limit ≠ .names l) → selectDirAW valid limit listing = selectSpec valid limit listing) ∧
+    ((∀ l, limit ≠ .names l) → (∀ n, limit ≠ .int n) →
+        selectZipAW hidden valid limit listing = selectSpec valid limit listing) ∧
+    ((∀ n, limit ≠ .int n) → selectTarAW hidden valid limit listing = selectSpec valid limit listing) := by
+  have hfil : (listing.filter fun f => !hidden f && valid f) = listing.filter valid := by
+    apply List.filter_congr
+    intro f _
+    cases hh : hidden f
+    · simp
+    · simp [hhid f hh]
+  refine ⟨?_, ?_, ?_⟩
+  · intro hn
+    cases limit <;> simp [selectDirAW, selectSpec]
+    exact absurd rfl (hn _)
+  · intro hn hi
+    cases limit <;> simp only [selectZipAW, selectSpec, intOf, scanAW_none, hfil]
+    · exact absurd rfl (hi _)
+    · exact absurd rfl (hn _)
+  · intro hi
+    cases limit <;> simp only [selectTarAW, selectSpec, intOf, scanAW_none, hfil]
+    exact absurd rfl (hi _)
+
+/-- **Integer `limit` on archives – the code that exists reads one file more** (`i >= limit` is tested after the
+append): with nothing hidden and every entry valid, `limit = n` selects the first `n + 1` entries, the
+documentation promises `n`. Full statement `selectZipAW … (.int n) … = selectSpec … (.int n) …` is *false* for the
+current source (open finding `parallel_read_archive/limit=int/one-more`). -/
+theorem archive_int_limit_partial (hidden valid : String → Bool) (n : Nat) (listing : List String)
+    (hall : ∀ f ∈ listing, hidden f = false ∧ valid f = true) :
+    selectZipAW hidden valid (.int n) listing = listing.take (n + 1) ∧
+    selectTarAW hidden valid (.int n) listing = listing.take (n + 1) ∧
+    selectSpec valid (.int n) listing = listing.take n := by
+  have h := scanAW_int_all_valid hidden valid n 0 listing (Nat.zero_le _) hall
+  have hf : listing.filter valid = listing := List.filter_eq_self.2 fun f hf => (hall f hf).2
+  simp [selectZipAW, selectTarAW, selectSpec, intOf, h, hf]
+
+example : selectZipAW (fun _ => false) (fun _ => true) (.int 2) ["10", "11", "12", "13"] = ["10", "11", "12"] := by decide
+
+/-- Folder / archive read under `errors ≠ 'raise'`: exactly one result per selected file that parses, in listing
+order; a corrupt file removes only itself (combines the selection with `policy_isolation`). -/
+theorem batch_read_one_per_valid_file {α} (e : Errors) (he : e ≠ .raise) (read : String → Option α)
+    (valid : String → Bool) (limit : Limit) (listing : List String) (hl : ∀ l, limit ≠ .names l) :
+    readBatch e read (selectDirAW valid limit listing) = some ((selectSpec valid limit listing).filterMap read) := by
+  rw [policy_isolation e he, (selection_meets_spec (fun _ => false) valid limit listing (by simp)).1 hl]
+
+/-- The precomputed file filter with the literals of the current source: the files `write_precomputed` produces for
+ids without a dot are data files; `info`, manifests (`<id>:0`), hidden files and anything with an extension are not. -/
+theorem precomputed_filter_literals :
+    IoReaders.preRejectContains = ["."] ∧ IoReaders.preRejectEquals = ["info"] ∧
+    IoReaders.preRejectEndsWith = [":0"] ∧ IoReaders.hiddenPrefix = ["._"] ∧
+    (let v := validPrecomputed IoReaders.preRejectContains IoReaders.preRejectEquals IoReaders.preRejectEndsWith
+     v "720575940" = true ∧ v "cellA_17" = true ∧ v "info" = false ∧ v "17:0" = false ∧ v "._17" = false ∧
+     v "notes.txt" = false ∧ v "17.swc" = false) := by
+  refine ⟨by decide, by decide, by decide, by decide, ?_⟩
+  decide
+
+/-! ### the `info` file describes the bytes next to it – in every container -/
+
+/-- **`info` ↔ binaries, for every container kind.** Whatever the target (folder, single file, list of paths,
+formatted names: the `dir` branch; `.zip` incl. `pattern@archive.zip`: the `zip` branch – the per-branch
+`add_props` flags are regenerated from `PrecomputedWriter.write_any`), for both settings of `radius`, every
+writable table and every nm scale (also non-integer and per-axis): the `info` file announces data type
+`neuroglancer_skeletons`, records the nm scale on the diagonal of a 3×4 transform whose other entries are 0, and
+lists exactly the vertex attributes the binaries carry – an independent decoder *following that info file* returns
+the written skeleton. -/
+theorem info_describes_bytes (container : String) (radius : Bool) (nm : Option V3R) (t : List Row)
+    (h : Writable t) :
+    let info := infoWritten IoReaders.infoCallPassesAddProps container false nm radius
+    datatypeOf info = some "skeleton" ∧
+    scaleOf info = some (nm.getD (1, 1, 1)) ∧ offDiagonalZero info = true ∧
+    specsOfInfo info = some (specsFor radius) ∧
+    ∃ specs, specsOfInfo info = some specs ∧
+      decodeSkel specs (encodeSkel (specsFor radius) (toSkel t radius)) = some (toSkel t radius) := by
+  have hok := toSkel_ok t radius h
+  have hinfo : infoWritten IoReaders.infoCallPassesAddProps container false nm radius =
+      writeInfo false nm (addProps radius) := by
+    by_cases hc : container = "zip"
+    · simp [infoWritten, hc, IoReaders.infoCallPassesAddProps]
+    · simp [infoWritten, hc, IoReaders.infoCallPassesAddProps]
+  have hspecs : specsOfInfo (writeInfo false nm (addProps radius)) = some (specsFor radius) := by
+    cases radius <;>
+      simp [specsOfInfo, writeInfo, addProps, specsFor, radiusVAttr, radiusSpec, Layout.dtypeSize]
+  simp only [hinfo]
+  refine ⟨by simp [datatypeOf, writeInfo], (scaleOf_writeInfo nm _).1, (scaleOf_writeInfo nm _).2, hspecs,
+    specsFor radius, hspecs, decodeSkel_encode _ _ hok⟩
+
+/-- Meshes: the `info` file announces `neuroglancer_legacy_mesh` in every container, so `datatype='auto'` picks the
+mesh reader. -/
+theorem info_mesh_type (container : String) (nm : Option V3R) :
+    datatypeOf (infoWritten IoReaders.infoCallPassesAddProps container true nm false) = some "mesh" := by
+  by_cases hc : container = "zip" <;> simp [infoWritten, hc, IoReaders.infoCallPassesAddProps, writeInfo, datatypeOf]
+
+/-- The remaining source facts the `info` model rests on. -/
+theorem gen_info_facts :
+    IoReaders.infoAddPropsGuardedByRadius = true ∧ IoReaders.infoMergesAddProps = true ∧
+    (radiusVAttr.id, radiusVAttr.dtype, radiusVAttr.comps) = IoConsts.radiusAttr ∧
+    -- the transform is built as `mat43` (4×3, scale on the diagonal block), transposed, flattened: `transformOf`
+    IoReaders.infoTransformShape = ((mat43 (1, 1, 1)).length, ((mat43 (1, 1, 1)).headD []).length) ∧
+    IoReaders.infoTransformTransposed = true ∧ IoReaders.infoTransformDiagBlock = true := by
+  refine ⟨by decide, by decide, by decide, by decide, by decide, by decide⟩
+
+/-- `read_h5(parallel=…)` maps the per-neuron jobs with the order-preserving `imap` (as `parallel_read` does,
+`gen_policy_matches_model`): the order of the result does not depend on `parallel`. -/
+theorem gen_h5_parallel_ordered : IoReaders.h5ParallelMap = "imap" ∧ IoConsts.parallelMap = "imap" := by
+  refine ⟨by decide, by decide⟩
+
+/-! ### NRRD: the header describes the neuron as it is *now* -/
+
+/-- **Multi-step histories.** `_write_nrrd` (executed statement by statement from the operation list the translator
+extracts from the current source) writes the neuron's *current* voxel size and unit – whatever header `old` the
+neuron still carries from an earlier `read_nrrd` (stale `space directions` / `space units` of the file it came
+from) and whatever extra fields the caller passes, as long as those do not themselves name the geometry keys.
+Reading the file back yields exactly `x.mags` and `x.unit` on all three axes (also anisotropic, also non-integer). -/
+theorem nrrd_header_current_geometry (x : Geo) (old attrs : Header)
+    (hfree : keysFree attrs ["space directions", "space units"]) :
+    readGeo (runOps IoReaders.nrrdWriteOps x old attrs) = (x.mags, some (x.unit, x.unit, x.unit)) := by
+  have h1 := hfree "space directions" (by simp)
+  have h2 := hfree "space units" (by simp)
+  cases hd : x.isDotprops <;>
+    simp [IoReaders.nrrdWriteOps, runOps, step, evalSrc, readGeo, hd, get_set_same, get_set_ne, get_update_free, h1, h2]
+
+/-- Dotprops: `k` travels in the header too (unless the caller overrides the field). -/
+theorem nrrd_header_k (x : Geo) (old attrs : Header) (hd : x.isDotprops = true) :
+    readK (runOps IoReaders.nrrdWriteOps x old attrs) = some x.k := by
+  simp [IoReaders.nrrdWriteOps, runOps, step, evalSrc, readK, hd, get_set_same]
+
+/-- Non-vacuity / the failure the theorem excludes: a header assembled in the wrong order (`update` with the old
+header *after* the geometry was set) reports the stale voxel size. -/
+example :
+    readGeo (runOps [.empty, .set "space directions" .diagUnits false, .set "space units" .unitNames false, .updateOld]
+      ⟨(4, 4, 40), "nanometer", 0, false⟩ [("space directions", .diag (8, 8, 8)), ("space units", .strs ["nanometer", "nanometer", "nanometer"])] [])
+      = ((8, 8, 8), some ("nanometer", "nanometer", "nanometer")) := by decide
+
+/-! ### vertex attributes with several components -/
+
+/-- `read_buffer` splits an `n × c` attribute block into `c` columns; word `p` of the block is found at row `p / c`
+of column `p % c` – nothing is dropped, duplicated or transposed. -/
+theorem attribute_columns_lossless (comps p : Nat) (vals : List Nat) (hc : 0 < comps) (hp : p < vals.length)
+    (hshape : vals.length % comps = 0) :
+    (column comps (p % comps) vals)[p / comps]? = vals[p]? ∧ (column comps (p % comps) vals).length = vals.length / comps :=
+  ⟨column_lossless comps p vals hc hp hshape, column_length _ _ _⟩
+
+example : attrColumns "dir" 3 [1, 2, 3, 4, 5, 6] = [("dir_0", [1, 4]), ("dir_1", [2, 5]), ("dir_2", [3, 6])] := by decide
+example : attrColumns "radius" 1 [7, 8] = [("radius", [7, 8])] := by decide
+
+/-! ### JSON: which attributes travel -/
+
+/-- `write_json` → `read_json` at the level of the neuron's attribute dictionary, with the key lists of the current
+source: the node table, the connector table and the id always arrive, and so does every public attribute; private
+attributes other than the two tables do not (documented: units, name, soma are not part of the JSON). -/
+theorem json_tables_and_id_travel {α} (id : α) (d : List (String × α)) :
+    let out := jsonRead IoReaders.jsonReadTables IoReaders.jsonReadSkipsSetattr
+      (jsonWrite IoReaders.jsonKeepPrivate IoReaders.jsonPrivatePrefix IoReaders.jsonIdKey id d)
+    dget out "id" = some id ∧ dget out "_nodes" = dget d "_nodes" ∧ dget out "_connectors" = dget d "_connectors" ∧
+    ∀ k, IoMeta.startsWith k "_" = false → k ≠ "id" → dget out k = dget d k := by
+  have hw : ∀ k, k ≠ "id" →
+      dget (jsonRead IoReaders.jsonReadTables IoReaders.jsonReadSkipsSetattr
+        (jsonWrite IoReaders.jsonKeepPrivate IoReaders.jsonPrivatePrefix IoReaders.jsonIdKey id d)) k =
+      if (IoReaders.jsonReadTables.contains k || !IoReaders.jsonReadSkipsSetattr.contains k) = true then
+        (if (!(IoMeta.startsWith k "_") || IoReaders.jsonKeepPrivate.contains k) = true then dget d k else none) else none := by
+    intro k hk
+    unfold jsonRead jsonWrite
+    rw [dget_filter_key (fun k => IoReaders.jsonReadTables.contains k || !IoReaders.jsonReadSkipsSetattr.contains k)]
+    simp only [dget, IoReaders.jsonIdKey, IoReaders.jsonPrivatePrefix, Ne.symm hk, if_false]
+    rw [dget_filter_key (fun k => !(IoMeta.startsWith k "_") || IoReaders.jsonKeepPrivate.contains k)]
+  refine ⟨?_, ?_, ?_, ?_⟩
+  · simp [jsonRead, jsonWrite, dget, IoReaders.jsonIdKey, IoReaders.jsonReadTables, IoReaders.jsonReadSkipsSetattr]
+  · rw [hw "_nodes" (by decide)]; simp [IoReaders.jsonReadTables, IoReaders.jsonKeepPrivate]
+  · rw [hw "_connectors" (by decide)]; simp [IoReaders.jsonReadTables, IoReaders.jsonKeepPrivate]
+  · intro k hpub hk
+    rw [hw k hk]
+    have hskip : IoReaders.jsonReadSkipsSetattr.contains k = false := by
+      simp only [IoReaders.jsonReadSkipsSetattr, List.contains_cons, List.contains_nil, Bool.or_false, Bool.or_eq_false_iff,
+        beq_eq_false_iff_ne, ne_eq]
+      constructor <;> (intro e; subst e; simp [IoMeta.startsWith] at hpub)
+    have h1 : (IoReaders.jsonReadTables.contains k || !IoReaders.jsonReadSkipsSetattr.contains k) = true := by
+      rw [hskip]; simp
+    have h2 : (!(IoMeta.startsWith k "_") || IoReaders.jsonKeepPrivate.contains k) = true := by
+      rw [hpub]; simp
+    rw [if_pos h1, if_pos h2]
+
+end Ext
 
 /-! ### non-vacuity: concrete inputs meeting the hypotheses -/
 
